@@ -197,3 +197,20 @@ func H_selftest_minmax() {
 	u := uint8(vxrt.Byte("u"))
 	vxrt.Assert(min(u, 200) <= 200 && max(u, 7) >= 7, "selftest:min-unsigned")
 }
+
+// H_selftest_refprev: the harness's reader of the .snap format agrees with the implementation's
+// on files built around two entries with free bytes in the bodies and between the entries.
+func H_selftest_refprev() {
+	dir := vxrt.Dir()
+	path := dir + "/f.snap"
+	n := vxrt.Param("n", 2)
+	b1 := vxrt.Text("body1", vxrt.Len("n1", 0, n))
+	gap := vxrt.Text("gap", vxrt.Len("ng", 0, n))
+	b2 := vxrt.Text("body2", vxrt.Len("n2", 0, n))
+	writeFile(path, "\n[TestA - 1]\n"+b1+"\n---\n"+gap+"[TestB - 1]\n"+b2+"\n---\n")
+	for _, id := range []string{"[TestA - 1]", "[TestB - 1]", "[TestC - 1]"} {
+		g1, l1, e1 := getPrevSnapshot(id, path)
+		g2, l2, e2 := refPrev(id, path)
+		vxrt.Assert((e1 == nil) == (e2 == nil) && vxrt.Eq(g1, g2) && l1 == l2, "selftest:reference-reader-agrees")
+	}
+}
